@@ -7,7 +7,7 @@ git -C /repo worktree add --detach $WT HEAD -q || exit 2
 ( cd $WT && git apply "$PATCH" ) || { echo "PATCH-DOES-NOT-APPLY $PATCH"; git -C /repo worktree remove --force $WT; exit 2; }
 for p in "$@"; do
   out=$(cd ${VDIR:-/verif} && HGMC_REPO=$WT HGMC_OUT=/var/tmp/devout_$$ ./check $p --tier ${TIER:-quick} 2>&1)
-  if echo "$out" | grep -q "^VIOLATION"; then echo "DETECTED $(basename $(dirname $PATCH))/$(basename $PATCH) by $p: $(echo "$out" | grep -m1 'sig=' | cut -c1-180)";
+  if echo "$out" | grep -q "^VIOLATION"; then echo "DETECTED $(basename $(dirname $PATCH))/$(basename $PATCH) by $p: $(echo "$out" | grep -A1 '^VIOLATION' | grep -m1 'sig=' | cut -c1-180)";
   else echo "MISSED   $(basename $(dirname $PATCH))/$(basename $PATCH) by $p  [$(echo "$out" | grep -E "^$p tier=" | cut -c1-60)]"; fi
 done
 git -C /repo worktree remove --force $WT; rm -rf /var/tmp/devout_$$
